@@ -6,7 +6,6 @@ import (
 	"os"
 	"os/exec"
 	"path/filepath"
-	"strconv"
 	"sync"
 	"testing"
 	"time"
@@ -31,29 +30,20 @@ type c16Tape struct {
 }
 
 // c16Setup builds a fresh instance of the universe (deterministic set-up code, no randomness).
-func c16Setup(t *testing.T, u c16Universe) (*sim.Chain, func(env string, args []string)) {
+func c16Setup(t *testing.T, u c16Universe) *sim.Chain {
 	switch u.Name {
 	case "cdp":
 		cu := newCDP(t, cdpOpts{variant: u.Variant})
 		cu.c.App.NewliqKeeper.SetParams(cu.c.Ctx(), liqV2types.Params{LiquidationBatchSize: uint64([]int{200, 3}[u.Variant%2])})
-		return cu.c, func(env string, args []string) {
-			if env == "price" {
-				p, _ := strconv.ParseUint(args[1], 10, 64)
-				cu.setPrice(args[0], p, args[2] == "true")
-			}
-		}
-	}
-	for _, f := range c16ExtraUniverses {
-		if c, env := f(t, u); c != nil {
-			return c, env
-		}
+		return cu.c
+	case "liq":
+		return liqNewWorld(t, ev.NewScratch(), rng("C16-liq-setup", u.Variant), u.Variant, nil).c
+	case "lend":
+		return c08Setup(t, ev.NewScratch(), rng("C16-lend-setup", u.Variant), 0, u.Variant%3, true).c
 	}
 	t.Fatalf("unknown universe %s", u.Name)
-	return nil, nil
+	return nil
 }
-
-// c16ExtraUniverses lets other fixtures (liquidity, lend) register themselves for replay.
-var c16ExtraUniverses []func(t *testing.T, u c16Universe) (*sim.Chain, func(env string, args []string))
 
 // c16Recorders produce a tape on a fresh instance of a universe.
 var c16Recorders = map[string]func(t *testing.T, rec *ev.Rec, u c16Universe, steps int) *sim.Tape{
@@ -71,6 +61,39 @@ var c16Recorders = map[string]func(t *testing.T, rec *ev.Rec, u c16Universe, ste
 	},
 }
 
+func init() {
+	c16Recorders["liq"] = func(t *testing.T, rec *ev.Rec, u c16Universe, steps int) *sim.Tape {
+		w := liqNewWorld(t, ev.NewScratch(), rng("C16-liq-setup", u.Variant), u.Variant, nil)
+		defer w.c.Close()
+		w.rnd = rng("C16-liq", u.Variant)
+		w.c.Tape = &sim.Tape{}
+		for b := 0; b < steps/6; b++ {
+			for i := w.rnd.Intn(7); i > 0; i-- {
+				w.randomOp()
+			}
+			w.nextBlock(w.blockGap())
+		}
+		w.nextBlock(6 * time.Second)
+		return w.c.Tape
+	}
+	c16Recorders["lend"] = func(t *testing.T, rec *ev.Rec, u c16Universe, steps int) *sim.Tape {
+		e := c08Setup(t, ev.NewScratch(), rng("C16-lend-setup", u.Variant), 0, u.Variant%3, true)
+		defer e.c.Close()
+		e.rnd = rng("C16-lend", u.Variant)
+		e.c.Tape = &sim.Tape{}
+		for i := 0; i < steps && !e.panicked; i++ {
+			if e.rnd.Intn(100) < 30 {
+				e.blockStep()
+			} else {
+				e.txStep()
+			}
+		}
+		e.c.NextBlock(6 * time.Second)
+		e.c.NextBlock(6 * time.Second)
+		return e.c.Tape
+	}
+}
+
 type c16Divergence struct {
 	At   int
 	What string
@@ -78,7 +101,7 @@ type c16Divergence struct {
 
 // c16Replay replays the tape on a fresh instance and returns the first divergence from the recorded execution.
 func c16Replay(t *testing.T, ct *c16Tape) *c16Divergence {
-	c, env := c16Setup(t, ct.U)
+	c := c16Setup(t, ct.U)
 	defer c.Close()
 	keys := storeKeys(c)
 	for i, rc := range ct.Tape.Recs {
@@ -105,7 +128,7 @@ func c16Replay(t *testing.T, ct *c16Tape) *c16Divergence {
 				}
 			}
 		case "env":
-			env(rc.Env, rc.Args)
+			c.ApplyEnv(rc)
 		}
 	}
 	return nil
@@ -114,7 +137,7 @@ func c16Replay(t *testing.T, ct *c16Tape) *c16Divergence {
 // c16AddDumps re-executes the tape once and attaches per-store dump hashes to every block record
 // (so that a later divergence can name the module store).
 func c16AddDumps(t *testing.T, ct *c16Tape) *c16Divergence {
-	c, env := c16Setup(t, ct.U)
+	c := c16Setup(t, ct.U)
 	defer c.Close()
 	keys := storeKeys(c)
 	for i := range ct.Tape.Recs {
@@ -132,7 +155,7 @@ func c16AddDumps(t *testing.T, ct *c16Tape) *c16Divergence {
 			}
 			rc.Stores, _ = inject.Dump(c.Ctx().MultiStore(), keys)
 		case "env":
-			env(rc.Env, rc.Args)
+			c.ApplyEnv(*rc)
 		}
 	}
 	return nil
@@ -155,8 +178,8 @@ func TestC16(t *testing.T) {
 	rec := ev.New("C16", "exploration", "a seeded mixed workload is executed once while its transaction bytes, block boundaries and environment actions are recorded with tx result digests, app hashes and per-store dump hashes; the tape is replayed on R fresh in-process instances sequentially, on R instances concurrently (race-detector build), and in a fresh child process with GOMAXPROCS=1; any difference in a tx result digest, app hash or store dump is a violation. distinct = (universe, variant, replay mode, tape length bucket)")
 	defer finish(t, rec)
 	workloads := ev.Pick(1, 3)
-	R := ev.Pick(3, 6)
-	steps := ev.Pick(350, 2500)
+	R := ev.Pick(2, 6)
+	steps := ev.Pick(300, 2500)
 	var names []string
 	for n := range c16Recorders {
 		names = append(names, n)
@@ -227,7 +250,7 @@ func TestC16(t *testing.T) {
 	}
 	rec.Floor("recorded_txs", 200)
 	rec.Floor("recorded_blocks", 30)
-	rec.Floor("replays_concurrent", 3)
+	rec.Floor("replays_concurrent", 2)
 	rec.Floor("replays_fresh-process", 1)
 }
 
